@@ -8,6 +8,7 @@ check compares with the real Filer after every operation (stored entries, FindEn
 listing views, link records).
 -/
 import SwV.Model.C18
+import SwV.Gen.C21
 import SwV.Spec.C21
 import SwV.Lemmas.C18
 import SwV.Lemmas.C21
@@ -187,5 +188,22 @@ theorem listing_stale_witness :
     let s' := (step linkedPair (.write ["b"] 2 [2])).1
     (children s' []).map (fun x => (x.1, x.2.chunks)) = [("a", [1]), ("b", [2])] ∧
     (find s' ["a"]).map (·.chunks) = some [2] := by decide
+
+/-! ### tie to the source (T1): the Go functions this model mirrors are the ones it was written against -/
+
+/-- a source edit of any mirrored function changes its hash and breaks this obligation (the model must then be
+    re-read against the code; the correspondence check says whether behaviour changed) -/
+theorem bridge_source_pins :
+    SwV.Gen.C21.src_handleUpdateToHardLinks = "33f7d51202e82d7e" ∧
+    SwV.Gen.C21.src_setHardLink = "ec3767ce94f9ae6b" ∧
+    SwV.Gen.C21.src_maybeReadHardLink = "e36b9e844d02cbd6" ∧
+    SwV.Gen.C21.src_DeleteHardLink = "a2ddc84588aadf75" ∧
+    SwV.Gen.C21.src_InsertEntry = "bbabe9f3d4e7edec" ∧
+    SwV.Gen.C21.src_UpdateEntry = "f7fe3164dd69a486" ∧
+    SwV.Gen.C21.src_FindEntry = "f1b72d3fe965f0cb" ∧
+    SwV.Gen.C21.src_DeleteOneEntry = "f25f2d182ec2dcf7" ∧
+    SwV.Gen.C21.src_ListDirectoryPrefixedEntries = "e6f15774cc588814" ∧
+    SwV.Gen.C21.src_moveSelfEntry = "6fb6d3093248b367" := by
+  decide
 
 end SwV.Props.C21
